@@ -36,6 +36,14 @@ theorem outOf_ok (o : CallOpts) (es : List PErr) : outOf o es = .ok ↔ es = [] 
   | nil => simp [outOf]
   | cons e es => cases hm : o.multi <;> simp [outOf, hm]
 
+theorem filterMap_congr' {α β : Type} {f g : α → Option β} :
+    ∀ (l : List α), (∀ x ∈ l, f x = g x) → l.filterMap f = l.filterMap g
+  | [], _ => rfl
+  | a :: l, h => by
+    have h1 : f a = g a := h a (by simp)
+    have h2 := filterMap_congr' l (fun x hx => h x (by simp [hx]))
+    simp only [List.filterMap_cons, h1, h2]
+
 /-! ## the regenerated table Gen.RequestLoops: row type and a symbolic reading of it -/
 
 /-- the condition of an `if … { continue }` inside a parameter loop -/
